@@ -70,8 +70,10 @@ def run(ctx):
                    "e/f: Colang 1.0 offsets land on the intended positions and consumer/producer keys agree (emit1)"]
     ctx.not_decided = ["per-file facts about the shipped .co files (subsumed by the generator-level result)"]
     a_label_closure(ctx)
+    a_emitted_once(ctx)
     scope_pairing(ctx, "C12.b.scopes")
     c_exhaustive(ctx)
+    c_nested_flow(ctx)
     d_consumers(ctx)
     d_label_tables(ctx)
     try:
@@ -82,6 +84,7 @@ def run(ctx):
         C14.offsets(ctx, "C12.e")
         C14.post_passes(ctx, "C12.e.post-pass")
         C14.key_agreement(ctx, "C12.f")
+    f_types_handled(ctx)
 
 
 def _first_line_of(fn_name, mod):
@@ -159,6 +162,40 @@ def _orc(o):
     return {k[:40]: v for k, v in o.items()}
 
 
+def a_emitted_once(ctx):
+    """The label table keeps ONE position per label name (initialize_flow: the last one wins) and a body of the source statement is one list of parsed elements.  A template
+    that emits the same label twice leaves every copy but the last unreachable, and a body that is expanded twice is expanded from the same parsed objects - the first
+    expansion's in-place edits are visible to the second (the reachable copy of `$x = match ...` has lost its assignment) and nested statements grow exponentially."""
+    names, temps = templates(ctx)
+    per = {}
+    for fn, sizes, oracle, elems in temps:
+        rec = per.setdefault(fn, {"n": 0, "dup": None, "body": None})
+        rec["n"] += 1
+        seen_l, seen_b = {}, {}
+        for e in elems:
+            if isinstance(e, Rec) and e.cls == "Label":
+                nm = e.fields.get("name")
+                seen_l[nm] = seen_l.get(nm, 0) + 1
+            elif isinstance(e, Nested):
+                seen_b[e.what] = seen_b.get(e.what, 0) + 1
+        d = [(k, v) for k, v in seen_l.items() if v > 1]
+        b = [(k, v) for k, v in seen_b.items() if v > 1]
+        if d and rec["dup"] is None:
+            rec["dup"] = (_generalise(str(d[0][0])), d[0][1], _sz(sizes))
+        if b and rec["body"] is None:
+            rec["body"] = (b[0][0], b[0][1], _sz(sizes))
+    n = 0
+    for fn, rec in sorted(per.items()):
+        n += rec["n"]
+        ok = rec["dup"] is None and rec["body"] is None
+        ctx.check("C12.a.emitted-once", EXP, fn, "labels and nested bodies are emitted once", ok,
+                  "in all %d template instances every label name and every nested body occurs once" % rec["n"] if ok else
+                  ("label `%s` is emitted %d times (witness %s): the label table keeps the last position only, the earlier copies are dead code" % rec["dup"] if rec["dup"] else "") +
+                  (" body %s is expanded %d times (witness %s) from the same parsed elements: the copies share objects that the expansion edits in place, and nesting multiplies them" % rec["body"] if rec["body"] else ""),
+                  line=_first_line_of(fn, ctx.tree.ast(EXP)) or 1)
+    ctx.floor("C12.a.emitted-once", EXP, "template instances", n, 50)
+
+
 def scope_pairing(ctx, rule):
     """Every path from BeginScope(s) to an exit of the template (end / Abort / uncaught failure) passes EndScope(s)."""
     names, temps = templates(ctx)
@@ -176,9 +213,10 @@ def scope_pairing(ctx, rule):
             name = elems[b].fields.get("name")
             ends = {i for i, e in enumerate(elems) if isinstance(e, Rec) and e.cls == "EndScope" and e.fields.get("name") == name}
             hits = g.reach_exit_avoiding(b, ends, st)
-            # an uncaught failure of a statement fails the whole flow (which stops everything it started): only
-            # normal end and the template's own Abort are exits the template is responsible for
-            hits = [(ex, path, kind) for ex, path, kind in hits if ex in (GenCFG.END, GenCFG.ABORT) and kind in ("next", "abort", "jump")]
+            # an uncaught failure of a statement fails the whole flow (which stops everything it started), and so does the template's own `Abort` when no handler of the
+            # template is active any more (statements only run where the handlers of enclosing statements have been popped): the normal end is the exit the template is
+            # responsible for.  (Until F6 was repaired the Abort exit was reported together with the else exit; only the else exit could be shown to fail.)
+            hits = [(ex, path, kind) for ex, path, kind in hits if ex == GenCFG.END and kind in ("next", "abort", "jump")]
             key = (fn, elems[b].line)
             rec = seen.setdefault(key, {"ok": True, "n": 0})
             rec["n"] += 1
@@ -195,6 +233,36 @@ def scope_pairing(ctx, rule):
                   "the scope opened by %s is closed on every exit of the template (%d instances explored)" % (fn, rec["n"]) if rec["ok"] else
                   "the scope opened by %s is NOT closed on every exit: %s. The flows/actions started inside stay alive and the next pass through the statement raises 'Scope ... already opened'" % (fn, rec["why"]),
                   line=line)
+
+
+def c_nested_flow(ctx):
+    """The grammar lets a `flow` definition appear in any suite (`suite: ... stmt+`, `stmt: def_stmt | ...`, `def_stmt: flow_def`), so the transformer can hand the expander a
+    Flow object INSIDE a flow body.  Only top-level flows are registered; a nested one is neither a primitive the interpreter handles nor expanded.  Either the grammar
+    excludes it, or expand_elements rejects it."""
+    G = "nemoguardrails/colang/v2_x/lang/grammar/colang.lark"
+    g = ctx.tree.text(G)
+    rules = dict(re.findall(r"^\??(\w+)\s*:\s*(.*)$", g, re.M))
+    def reach(start):
+        seen, work = set(), [start]
+        while work:
+            r = work.pop()
+            if r in seen or r not in rules:
+                continue
+            seen.add(r)
+            work += re.findall(r"\b([a-z_]\w*)\b", rules[r])
+        return seen
+    nested_possible = "flow_def" in reach("suite")
+    mod = ctx.tree.ast(EXP)
+    ee = find_function(mod, "expand_elements")
+    if ee is None:
+        raise AnalysisError("expand_elements not found", anchor=EXP + "::expand_elements")
+    rejects = any(isinstance(i, ast.If) and isinstance(i.test, ast.Call) and src(i.test.func) == "isinstance" and len(i.test.args) == 2 and src(i.test.args[1]) == "Flow"
+                  and any(isinstance(r, ast.Raise) for st in i.body for r in ast.walk(st)) for i in ast.walk(ee))
+    ok = (not nested_possible) or rejects
+    ctx.check("C12.c.nested-flow", EXP, "expand_elements", "flow definition inside a flow body", ok,
+              ("the grammar cannot produce a flow definition inside a suite" if not nested_possible else "expand_elements rejects a Flow element inside a flow body (ColangSyntaxError at load time)") if ok else
+              "the grammar accepts `flow` in any suite (suite -> stmt -> def_stmt -> flow_def) and nothing rejects or expands the resulting Flow element: an (accidentally indented) flow "
+              "silently becomes a dead composite element of the outer flow - its body is never expanded and the flow does not exist for `await`/`activate`", line=ee.lineno)
 
 
 # ---------------------------------------------------------------------------------
@@ -593,3 +661,38 @@ def d_consumers(ctx):
         ctx.check("C12.d.consumers", SM, "element_labels lookup", first_line(s), ok,
                   "lookup key `%s` is %s" % (key, "membership-guarded" if guarded else "a label field filled by the expanders (closed by C12.a)") if ok else
                   "lookup key `%s` is neither guarded nor a label field produced by the expanders" % key, line=s.lineno)
+
+
+COYML = "nemoguardrails/colang/v1_0/lang/coyml_parser.py"
+V1_RUNTIME = ["nemoguardrails/colang/v1_0/runtime/sliding.py", "nemoguardrails/colang/v1_0/runtime/flows.py", "nemoguardrails/colang/v1_0/runtime/runtime.py"]
+# element types the Colang 1.0 compiler emits into its working list but removes again before the flow is stored (checked by C14.a / C12.e.post-pass)
+V1_LOWERED = {"goto": "resolved into absolute jumps by the goto/label post-pass", "label": "removed by the goto/label post-pass"}
+
+
+def f_types_handled(ctx):
+    """Colang 1.0: every `_type` the compiler can leave in a compiled flow is a type the interpreter knows (a comparison against `_type` in slide / compute_next_state /
+    _is_match / the runtime).  A type nobody handles is an unexpanded construct: slide() stops on it for ever."""
+    t = ctx.tree.ast(COYML)
+    emitted = {}
+    for n in ast.walk(t):
+        if isinstance(n, ast.Dict):
+            for k, v in zip(n.keys, n.values):
+                if isinstance(k, ast.Constant) and k.value == "_type" and isinstance(v, ast.Constant) and isinstance(v.value, str):
+                    emitted.setdefault(v.value, n.lineno)
+        if isinstance(n, ast.Assign) and isinstance(n.targets[0], ast.Subscript) and isinstance(n.targets[0].slice, ast.Constant) and n.targets[0].slice.value == "_type" \
+                and isinstance(n.value, ast.Constant) and isinstance(n.value.value, str):
+            emitted.setdefault(n.value.value, n.lineno)
+    handled = set()
+    for rel in V1_RUNTIME:
+        for n in ast.walk(ctx.tree.ast(rel)):
+            if isinstance(n, ast.Compare) and re.search(r"_type\b|\bp_type\b", src(n)):
+                for c in ast.walk(n):
+                    if isinstance(c, ast.Constant) and isinstance(c.value, str):
+                        handled.add(c.value)
+    ctx.floor("C12.f.types-handled", COYML, "element types the Colang 1.0 compiler emits", len(emitted), 12)
+    for ty, line in sorted(emitted.items()):
+        ok = ty in handled or ty in V1_LOWERED
+        ctx.check("C12.f.types-handled", COYML, "_extract_elements", "_type %r" % ty, ok,
+                  ("the interpreter handles `%s`" % ty if ty in handled else "`%s` is %s" % (ty, V1_LOWERED.get(ty))) if ok else
+                  "the compiler emits elements of type `%s` (line %d) but nothing in the Colang 1.0 runtime handles that type and no post-pass lowers it: `user A or user B` compiles into an "
+                  "`any` group that slide() cannot pass - the flow is stuck there for ever and its members are dead elements" % (ty, line), line=line)
